@@ -6,6 +6,7 @@ import Qco.Driver.Hex
 import Qco.Spec.File
 import Qco.Train.WFc
 import Qco.Train.Model
+import Qco.Train.Huffman
 import Qco.Op.Decomp
 import Qco.Glue.Auto
 import Qco.Bits.Script
@@ -134,6 +135,19 @@ def analyzeChunk (d : DType) (fl : Flags) (level : Nat) (c : DChunk) (vals : Lis
   let domJump := match findPrefix ps dom with
     | some i => let p := ps.getD i default; p.jump.isSome && p.lower == p.upper
     | none => false
+  -- Huffman tie (Train/Huffman.lean): the real codes cost exactly what `make_huffman_code` must reach for the
+  -- weights. Weight = count, except for the run-length prefix: `ceil(freq·(1−freq)·n)` in `f64`, so ±1 is admitted.
+  let counts := ps.map (·.count)
+  let codes := ps.map (·.code)
+  let huffOk (ws : List Nat) : Bool := weightedLen ws codes == huffCostW ws
+  let huffopt :=
+    match ps.findIdx? (·.jump.isSome) with
+    | none => huffOk counts
+    | some i =>
+      let cnt := counts.getD i 0
+      let n := us.length
+      let ex := if n == 0 then 0 else (cnt * (n - cnt) + n - 1) / n
+      [ex - 1, ex, ex + 1].any fun w => huffOk (counts.set i w)
   let tags := String.intercalate "," (
     (if jumps > 0 then ["runlen"] else []) ++
     (if ps.any (fun p => p.gcd > 1 && p.lower < p.upper) then ["gcd"] else []) ++
@@ -151,7 +165,7 @@ def analyzeChunk (d : DType) (fl : Flags) (level : Nat) (c : DChunk) (vals : Lis
     s!"bodybits={bodyB} bodybytes={c.cm.bodyBytes} nprefs={ps.length} maxcode={maxcode} W={W} nus={us.length} " ++
     s!"metabits={(encChunkMeta gbFloat d fl c.cm).length + 8} prefbits={(ps.map fun p => (encPrefix gbFloat (prefDType d fl) fl c.cm.n (!fl.gcds || c.cm.commonGcd.isSome) p).length).foldl max 0} " ++
     s!"explains={(Train.explainsWhy (us.mergeSort (· ≤ ·)) level fl.gcds c.cm.commonGcd.isSome gbFloat ps).replace " " "_"} " ++
-    s!"dom={domCount} runs={runs} others={others} domjump={b01 domJump} allequal={b01 (us.all (· == us.headD 0))} tags={tags}"
+    s!"huffopt={b01 huffopt} dom={domCount} runs={runs} others={others} domjump={b01 domJump} allequal={b01 (us.all (· == us.headD 0))} tags={tags}"
   (str, blocks.map fun bs => { cm := c.cm, blocks := bs })
 
 def cmdEnc (args : List String) : String :=
